@@ -70,7 +70,7 @@ def gen_pair(rng):
     compact, long_, calls = [], [], []
     for i in range(rng.randint(2, 5)):
         name = "m%d" % i
-        kind = rng.choice(["union", "optret", "optarg", "ast", "array", "int", "optional", "default"])
+        kind = rng.choice(["union", "optret", "optarg", "optarg-mid", "optarg-key", "ast", "array", "int", "optional", "default"])
         a, b = rng.sample(["String", "Int", "Float", "Symbol"], 2)
         if kind == "union" and rng.random() < 0.4:
             a2, b2 = rng.sample(["Number", "OptionalString", "String", "Int", "Integer", "IntInt"], 2)
@@ -89,6 +89,15 @@ def gen_pair(rng):
             c = {"name": name, "arguments": [{"type": a}, {"type": "?" + b}], "return_type": {"type": a}}
             l = {"name": name, "arguments": [{"type": a}, {"type": b, "is_default": True}], "return_type": {"type": a}}
             argv = [ARGS_OK[a], ARGS_OK[a] + ", " + ARGS_OK[b], ARGS_OK[a] + ", nil", ""]
+        elif kind == "optarg-mid":
+            # the optional argument is NOT the last one: what follows keeps its own (required) status in both notations
+            c = {"name": name, "arguments": [{"type": "?" + a}, {"type": b}], "return_type": {"type": a}}
+            l = {"name": name, "arguments": [{"type": a, "is_default": True}, {"type": b}], "return_type": {"type": a}}
+            argv = ["", ARGS_OK[a], ARGS_OK[a] + ", " + ARGS_OK[b], ARGS_OK[b]]
+        elif kind == "optarg-key":
+            c = {"name": name, "arguments": [{"type": "?" + a}, {"key": "size:", "type": b}], "return_type": {"type": a}}
+            l = {"name": name, "arguments": [{"type": a, "is_default": True}, {"key": "size:", "type": b}], "return_type": {"type": a}}
+            argv = ["", ARGS_OK[a], ARGS_OK[a] + ", size: " + ARGS_OK[b], "size: " + ARGS_OK[b]]
         elif kind == "ast":
             c = {"name": name, "arguments": [{"type": "*" + a}], "return_type": {"type": b}}
             l = {"name": name, "arguments": [{"type": a, "is_asterisk": True}], "return_type": {"type": b}}
